@@ -28,6 +28,11 @@ def cases(tier, seed):
     out = []
     for k in range(n):
         fam = gen.rich_family(rng, n_masters=rng.choice([2, 3]))
+        if k % 4 == 1:
+            # a full master (not the default) that kerns nothing at all
+            cand = [m for m in fam["masters"] if m["loc"]["Weight"] != 400]
+            if cand:
+                rng.choice(cand)["ufo"]["kerning"] = []
         out.append({"cid": f"c10-{seed}-{k}", "lib": rng.choice(["ufoLib2", "defcon"]), "fam": fam,
                     "flavor": rng.choice(["tt", "cff2"]), "varFeatures": rng.random() < 0.6,
                     "prodNames": rng.random() < 0.2, "kern2": rng.random() < 0.25})
